@@ -76,7 +76,7 @@ SHAPES_MORE = [(24, 25)]            # 600 samples: the text writer's multi-colum
 SHAPES_THOROUGH = [(6, 7), (16, 16), (13, 45), (1, 587), (9, 2)]
 VCLASSES = ['mixed', 'pos', 'neg', 'const', 'zero', 'tiny', 'huge', 'outlier']
 NANPATS = ['none', 'corner', 'row', 'checker', 'allbut1']
-SAGS = {'sag1e7': 1e7, 'sag3.5e7': 3.5e7, 'sag3e8': 3e8}    # large sag-type maps [nm]: 10 mm .. 0.3 m (Code V only)
+SAGS = {'sag1e7': 1e7, 'sag3.5e7': 3.5e7, 'sag3e8': 3e8, 'sag3e12': 3e12, 'sag2e-10': 2e-10}   # + magnitudes at which the text header prints its scale in scientific notation    # large sag-type maps [nm]: 10 mm .. 0.3 m (Code V only)
 VCLASSES_CV = VCLASSES + list(SAGS)
 DXS = [0.5, 0.0123]
 DXS_ZERO = [0, 0.0]                  # no lateral calibration: must come back as exactly 0
@@ -1265,6 +1265,62 @@ def _cells(shapes, vclasses, nanpats):
                 yield shape, v, pat
 
 
+# ---------------------------------------------------------------------------------------------
+# results of EARLIER reads are the caller's: a session reads a sample map and a reference map of the same shape and keeps both
+
+def run_read_twice(case, seed, R):
+    shape = tuple(case['shape'])
+    fmt = 'codev' if case['writer'] == 'codev' else 'zygo'
+    wvl = 0.6328
+    maps = [make_map(shape, v, pat, fmt, wvl, seed) for v, pat in (('mixed', 'corner'), ('neg', 'checker'), ('pos', 'none'))]
+    tmp = tempfile.mkdtemp(prefix='verif-c14-', dir='/tmp')
+    try:
+        paths = []
+        for k, a in enumerate(maps):
+            pth = os.path.join(tmp, f'm{k}.' + ('int' if fmt == 'codev' else 'dat'))
+            if fmt == 'codev':
+                R.call(io.write_codev_gridint, a.copy(), pth, sig='codev_gridint:read-twice:write:exception', hygiene=False)
+            else:
+                R.call(io.write_zygo_dat, pth, a.copy(), 0.5, wavelength=wvl, sig='zygo_dat:read-twice:write:exception', hygiene=False)
+            paths.append(pth)
+
+        def read(pth):
+            if case['writer'] == 'codev':
+                out = R.call(io.read_codev_gridint, pth, sig='codev_gridint:read-twice:read:exception', hygiene=False)
+                return None if out is FAILED else np.asarray(out[0] if isinstance(out, tuple) else out, dtype=float) if not isinstance(out, dict) else np.asarray(out.get('data', out.get('phase')), dtype=float)
+            if case['writer'] == 'ifg':
+                out = R.call(Interferogram.from_zygo_dat, pth, sig='Interferogram.zygo_dat:read-twice:read:exception', hygiene=False)
+                return None if out is FAILED else out.data
+            out = R.call(io.read_zygo_dat, pth, sig='zygo_dat:read-twice:read:exception', hygiene=False)
+            return None if out is FAILED else out['phase']
+
+        held, snaps = [], []
+        for order in ([0, 1, 2], [2, 0, 0, 1]):
+            for k in order:
+                d = read(paths[k])
+                if d is None:
+                    return
+                for (kk, hd), sn in zip(held, snaps):
+                    R.expect(np.array_equal(hd, sn, equal_nan=True), f"{case['writer']}:read-twice:earlier-result-changed",
+                             f'the map returned by an earlier read of file {kk} changed when file {k} (same shape {shape}) was read')
+                    R.expect(not np.shares_memory(hd, d), f"{case['writer']}:read-twice:results-share-memory", f'maps returned by two reads share memory (files {kk}, {k})')
+                tol = np.nanmax(np.abs(maps[k])) / 32767 * 1.01 + 1e-12 if fmt == 'codev' else wvl * 1e3 / ZYGO_RES * 1.01 + 4 * np.finfo(np.float32).eps * np.nanmax(np.abs(maps[k]))
+                R.expect_close(np.asarray(d, dtype=float), maps[k], tol, f"{case['writer']}:read-twice:value", f'read {k} of a session of same-shape files')
+                held.append((k, d))
+                snaps.append(np.array(d, copy=True))
+                # the caller processes what he was given (in place): a later read of the SAME file must still return the file's map
+                if order != [0, 1, 2] and k == 0:
+                    try:
+                        d[...] = np.nan_to_num(d) * 0.0 + 5.0
+                        snaps[-1] = np.array(d, copy=True)
+                    except Exception:   # noqa
+                        pass
+    finally:
+        shutil.rmtree(tmp, ignore_errors=True)
+    R.nontrivial()
+    R.outcome('read-twice')
+
+
 def plan(tier, seed):
     shapes = SHAPES + SHAPES_MORE + (SHAPES_THOROUGH if tier == 'thorough' else [])
     zy, ifg, cv = [], [], []
@@ -1415,7 +1471,12 @@ def plan(tier, seed):
             large.append({'writer': 'ifg', 'shape': shp, 'v': v, 'nan': pat, 'dx': 0.5, 'wvl': 0.6328})
             if shp[0] * shp[1] <= 500000:
                 large.append({'writer': 'codev', 'shape': shp, 'v': v, 'nan': pat, 'typ': 'SUR', 'nnb': 0, 'comment': 'default'})
+    rt2 = [{'writer': w, 'shape': list(sh)} for w in ('zygo', 'ifg', 'codev') for sh in ((3, 5), (4, 4), (1, 4))]
     return [
+        ScopeUnit('read_twice', rt2, run_read_twice,
+                  'sessions over three different maps of ONE shape {3x5, 4x4, 1x4} written to three files, read in the orders [0,1,2] and [2,0,0,1] through read_zygo_dat / Interferogram.from_zygo_dat / '
+                  'read_codev_gridint, every earlier result held: each read returns its file\'s map, earlier results never change and never share memory with later ones, and after the caller overwrote '
+                  'a result in place the next read of the same file still returns the file\'s map', reset=_reset),
         ScopeUnit('rt_large', large, run_roundtrip,
                   f'size-threshold alphabet of map shapes {lg_shapes} (above 2^16, 2^18 and 2^20 samples, not multiples of them, tall and wide) x value class / NaN pattern {{mixed/corner, neg/checker}} '
                   'through write_zygo_dat, Interferogram.save_zygo_dat (and write_codev_gridint up to 5e5 samples) and back: the same round-trip oracle on EVERY sample (orientation, NaN set, one quantisation step); not closed over sizes',
